@@ -1351,4 +1351,15 @@ example (ht : TilingEnv env) {e e' : Editor D L} {ev : KeyEvent} {b : KB} (hs : 
 
 end Linked
 
+/-! ## linked (round 2, `linkH`): the bound in EVERY reachable state
+
+`Props/C05Bound.lean` (namespace `Chewing.C05`, audited with this property; it needs C01's invariant, whose proofs
+import this file): `buffer_bounded_everywhere` — with exact lookup, thresholds `≤ B` and no list-closing API call over
+the simple engine's over-full one-word list, every history of valid operations returns and `len ≤ B` in every state,
+`≤ B + 1` while a candidate list is open (`bound_plus_one_attained`); `buffer_bounded_keys` (keys only: no side
+condition); `conversions_are_short` (inside a step at most `B + max 2 K` symbols are converted).  The unrestricted
+statement is refuted with concrete histories, both confirmed on the real C API: `fuzzy_unbounded_refuted` (prefix
+lookup: `EnteringSyllable`'s `Fuzzy` arm inserts without an auto-commit) and `cancel_unbounded_refuted`
+(`cancel_selecting` returns to `Entering` without an auto-commit). -/
+
 end Chewing.C05
